@@ -328,6 +328,48 @@ func exec(kind byte, body []byte) *core.Verdict {
 				return v
 			}
 		}
+		if ti%3 == 1 && len(steps) > 0 {
+			// placement in a deviation: the replacement type of 'deviate replace' carries the last restriction
+			kw := "range"
+			if t.length {
+				kw = "length"
+			}
+			n := len(steps) - 1
+			base := strings.TrimSuffix(t.module(c.Parent, steps[:n]), "}\n") + fmt.Sprintf(" leaf ld { type t%d; }\n}\n", n)
+			dv := fmt.Sprintf("module dv { namespace \"urn:dv\"; prefix dv; import m { prefix m; }\n deviation \"/m:ld\" { deviate replace { type m:t%d { %s \"%s\"; } } }\n}\n", n, kw, steps[n])
+			dms := yang.NewModules()
+			if err := dms.Parse(base, "m.yang"); err != nil {
+				return &core.Verdict{Infra: "rendered module does not parse: " + err.Error() + "\n" + base}
+			}
+			if err := dms.Parse(dv, "dv.yang"); err != nil {
+				return &core.Verdict{Infra: "rendered module does not parse: " + err.Error() + "\n" + dv}
+			}
+			derrs := dms.Process()
+			v.N++
+			if len(derrs) == 0 && !allOK {
+				v.OK, v.Sig = false, "accepts-invalid-in-deviation"
+				v.Detail = fmt.Sprintf("%s fraction-digits=%d: the restriction is invalid but as the replacement type of a deviation it is accepted without error\n%s%s", t.name, t.fd, base, dv)
+				return v
+			}
+			if len(derrs) > 0 && allOK && !c.Invalid {
+				v.OK, v.Sig = false, "rejects-valid-in-deviation"
+				v.Detail = fmt.Sprintf("%s fraction-digits=%d: valid restriction rejected as the replacement type of a deviation: %v\n%s%s", t.name, t.fd, derrs, base, dv)
+				return v
+			}
+			if len(derrs) == 0 && allOK {
+				if l := yang.ToEntry(dms.Modules["m"]).Dir["ld"]; l != nil && l.Type != nil {
+					yr := l.Type.Range
+					if t.length {
+						yr = l.Type.Length
+					}
+					if got, w := showYR(yr), t.showModel(c.Results[len(c.Results)-1].R); got != w {
+						v.OK, v.Sig = false, "set-differs-in-deviation"
+						v.Detail = fmt.Sprintf("%s fraction-digits=%d: deviated leaf: specification %s, library %s\n%s%s", t.name, t.fd, w, got, base, dv)
+						return v
+					}
+				}
+			}
+		}
 		v.N++
 		ms := yang.NewModules()
 		if err := ms.Parse(text, "m.yang"); err != nil {
